@@ -88,13 +88,17 @@ Increment(c, k, n) ==
      THEN /\ mem' = [mem EXCEPT ![k] = [st |-> "New", val |-> NumV(n), ver |-> 1]]
           /\ ref' = [ref EXCEPT ![k] = NumV(n)]
           /\ UNCHANGED devs
+     ELSE IF old.st = "Deleted"
+     THEN \* a removed key counts as 0; the entry keeps its place on disk
+          /\ mem' = [mem EXCEPT ![k] = [st |-> "Updated", val |-> NumV(n), ver |-> old.ver + 1]]
+          /\ ref' = [ref EXCEPT ![k] = NumV(n)]
+          /\ UNCHANGED devs
      ELSE IF old.val.num
-     THEN /\ mem' = [mem EXCEPT ![k] = [st |-> "New", val |-> NumV(old.val.n + n), ver |-> 1]]
+     THEN /\ mem' = [mem EXCEPT ![k] = [st |-> UpdSt(old), val |-> NumV(old.val.n + n), ver |-> old.ver + 1]]
           /\ ref' = [ref EXCEPT ![k] = NumV(old.val.n + n)]
-          /\ devs' = IF old.ver >= 1 THEN devs \cup {"IncResetsVersion"} ELSE devs
-     ELSE \* "Key is not numeric" -- also for a tombstone, whose reference value is 0
-          /\ UNCHANGED <<mem, ref>>
-          /\ devs' = IF old.st = "Deleted" THEN devs \cup {"IncOnTombstoneRefused"} ELSE devs
+          /\ UNCHANGED devs
+     ELSE \* "Key is not numeric"
+          /\ UNCHANGED <<mem, ref, devs>>
   /\ UNCHANGED snapq
 
 Read(c, k, safe) ==
